@@ -2,6 +2,7 @@ package mining
 
 import (
 	"context"
+	"math"
 	"reflect"
 	"sync/atomic"
 
@@ -66,6 +67,9 @@ func (csk *ConfigurableSpaceKeeperV1) ConfigureByPath(paths []string, sizes []ui
 	}
 	sizesInt := make([]int, len(sizes))
 	for i := range sizes {
+		if sizes[i] > math.MaxInt64 {
+			return nil, capacity.ErrOSDiskSizeNotEnough
+		}
 		sizesInt[i] = int(sizes[i])
 	}
 	return sk.ConfigureByPath(paths, sizesInt, execPlot, execMine)
